@@ -8,6 +8,28 @@ HARD = {"W", "R", "NULL", "IDX", "ABORT", "FIELD", "UAF", "FREE", "CALL", "UNINI
 SOFT = {"MODEL", "BUDGET"}
 OUT = 384
 
+# Documented shape of a successful result per method (crypt.5 "Hashed passphrase format" and the hash-size column;
+# the property names 13/60/86/43 itself).  digest = number of encoded digest characters at the end of the result,
+# min/max = total length.  Deviations from crypt.5 are noted where its regex is not what the methods' definitions say.
+#   digest None: the digest is not produced by a contract primitive (bcrypt: Blowfish is interpreted) - total length decides
+#   max None: the method copies a salt of any length from the setting (bounded by the output buffer only)
+SHAPE = {
+    "K$1$": {"digest": 22, "min": 3 + 0 + 1 + 22, "max": 3 + 8 + 1 + 22},
+    "K$2a$": {"digest": None, "min": 60, "max": 60}, "K$2b$": {"digest": None, "min": 60, "max": 60},
+    "K$2x$": {"digest": None, "min": 60, "max": 60}, "K$2y$": {"digest": None, "min": 60, "max": 60},
+    "K$3$": {"digest": 32, "min": 36, "max": 36},                      # crypt.5 says 256 bits; MD4 is 128 bits = 32 hex digits
+    "K$5$": {"digest": 43, "min": 3 + 0 + 1 + 43, "max": 3 + 17 + 16 + 1 + 43},
+    "K$6$": {"digest": 86, "min": 3 + 0 + 1 + 86, "max": 3 + 17 + 16 + 1 + 86},
+    "K$7$": {"digest": 43, "min": None, "max": None, "digest_undecided": "scrypt result is assembled with range-length copies; provenance positions are blurred"},
+    "K$md5": {"digest": 22, "min": 4 + 1 + 0 + 1 + 22, "max": None},  # $md5[,rounds=N]$salt$[$]digest ; salt of any length is hashed and echoed
+    # crypt.5's regex for sha1crypt asks for 40..96 trailing characters; HMAC-SHA1 (20 bytes, 21 encoded) gives 28
+    "K$sha1": {"digest": 28, "min": 6 + 1 + 1 + 0 + 1 + 28, "max": 6 + 10 + 1 + 64 + 1 + 28, "slack": 10,
+               "slack_reason": "the merged snprintf model adds the digit-count range of the round count twice"},
+    "K_": {"digest": 11, "min": 20, "max": 20},
+    "Kdes": {"digest": "11k", "min": 13, "max": 2 + 16 * 11},         # descrypt 13, bigcrypt 2 + 11 per 8-byte block, up to 16 blocks
+}
+P_DIGEST = 4
+
 
 def health(chk, g):
     if len(g["res"]) != g["ncells"] or g["ncells"] < 30:
@@ -91,6 +113,9 @@ def c06(chk, g):
     chk.rule("X-CLEAN", "every byte of a successful result is printable ASCII without whitespace or : ; * ! \\")
     chk.rule("X-PREFIX", "a successful result starts with the prefix of the setting's method and never with '*'")
     chk.rule("X-LEN", "a successful result is NUL-terminated and shorter than CRYPT_OUTPUT_SIZE")
+    chk.rule("X-DIGEST-LEN", "the number of result characters that carry digest provenance (less the blur of the length range) is the method's fixed digest length")
+    chk.rule("X-SHAPE-LEN", "the total length of a successful result lies within the method's documented minimum and maximum (prefix, options, truncated salt, delimiters, digest)")
+    shape_seen = set()
     n = 0
     for cid, c in sorted(g["res"].items()):
         mt = g["meta"][cid]
@@ -106,6 +131,7 @@ def c06(chk, g):
                 chk.fail("X-LEN", "len|%s" % mt["base"], "result not provably NUL-terminated within %d bytes [%s]" % (OUT, d), "lib/", {"cell": cid})
                 continue
             chk.count("X-LEN", 1)
+            shape(chk, mt, p, ln, d, cid, shape_seen)
             allowed = K.CLEAN | {0}
             dirty = [(i, s - allowed) for i, (s, pr) in enumerate(chars) if not s <= allowed]
             if dirty and "wset" in p:
@@ -140,3 +166,40 @@ def c06(chk, g):
                 chk.count("X-PREFIX", 1)
     if n < 40:
         raise AnalysisBroken("only %d successful abstract paths in the crypt grid" % n)
+    missing = {b for b in {m_["base"] for m_ in g["meta"].values() if m_["row"] is not None and m_["base"] != "Kempty"} if b not in shape_seen}
+    if missing:
+        raise AnalysisBroken("no documented shape for grid method(s) %s" % sorted(missing))
+
+
+def shape(chk, mt, p, ln, d, cid, seen):
+    sp = SHAPE.get(mt["base"])
+    if sp is None:
+        return
+    seen.add(mt["base"])
+    nl, nh = p.get("nul", [-1, -1])
+    out = p.get("out", [])
+    if nl < 0 or (ln < len(out) and out[ln][0] == frozenset([0])):
+        nl = nh = ln        # a definite terminator cell
+    where = {"cell": cid, "length_range": [nl, nh], "result": xai.show(out[:nh])[:160]}
+    # fixed digest length
+    if sp["digest"] is None:
+        chk.distinct.add(("X-DIGEST-LEN-by-total-length", mt["base"]))
+    elif sp.get("digest_undecided"):
+        chk.distinct.add(("X-DIGEST-LEN-undecided", mt["base"]))
+    else:
+        nd = sum(1 for s_, pr in out[:nh] if pr & P_DIGEST) - (nh - nl)
+        good = (nd % 11 == 0 and 11 <= nd <= 176) if sp["digest"] == "11k" else nd == sp["digest"]
+        if good:
+            chk.count("X-DIGEST-LEN", 1, [mt["base"]])
+        else:
+            chk.fail("X-DIGEST-LEN", "digest|%s|%d" % (mt["base"], nd), "the result carries %d digest characters, the method's digest has %s [%s]" % (nd, sp["digest"], d), "lib/", where)
+    # total length
+    hi = None if sp["max"] is None else sp["max"] + sp.get("slack", 0)
+    if hi is not None and nh > hi:
+        chk.fail("X-SHAPE-LEN", "max|%s" % mt["base"], "a successful result can be %d characters long; the method's longest documented hash has %d [%s]" % (nh, sp["max"], d), "lib/", where)
+    elif sp["min"] is not None and nl < sp["min"]:
+        chk.fail("X-SHAPE-LEN", "min|%s" % mt["base"], "a successful result can be as short as %d characters; the method's shortest hash (empty salt, no options) has %d [%s]" % (nl, sp["min"], d), "lib/", where)
+    elif hi is None and sp["min"] is None:
+        chk.distinct.add(("X-SHAPE-LEN-undecided", mt["base"]))
+    else:
+        chk.count("X-SHAPE-LEN", 1, [mt["base"]])
